@@ -66,6 +66,7 @@ class History:
         self.force_collision = 0.0
         path = os.path.join(ctx.work, f"idm-{idx}.db") if file_db else ":memory:"
         self.max_ids = self.rng.choice([1, 2, 3, 10, 1024, 1024])
+        self.tie_rate = self.rng.choice([0.0, 0.2, 0.2, 0.6])   # how often the clock does NOT advance between operations
         self._saved = (self.idm.datetime, self.idm.secrets, self.idm.IDSpace.gen_random_id)
         install_clock(self.idm, self.clock)
         self.idm.secrets = FakeSecrets(self.rng)
@@ -94,7 +95,7 @@ class History:
 
     def tick(self):
         # monotone clock with forced ties 20 % of the time
-        if self.rng.random() >= 0.2:
+        if self.rng.random() >= self.tie_rate:
             self.clock.now_us += self.rng.choice([1, 1, 3, 1000, 10**6])
 
     # ---- operations; each records a step with the model request
@@ -217,9 +218,11 @@ def random_history(ctx, tup, idx, cov, large=False):
             pairs = [(sp, sub)]
         else:
             pairs = []
+            one_space = rng.choice(spaces) if rng.random() < 0.7 else None   # several subspaces of ONE space: shared table
+            pool = subspace_pool(idm, rng)
             for _ in range(rng.choice([1, 2, 3])):
-                sp = rng.choice(spaces)
-                pairs.append((sp, rng.choice(subspace_pool(idm, rng))))
+                sp = one_space or rng.choice(spaces)
+                pairs.append((sp, rng.choice(pool)))
         sizes = [p[0].subspace_size(p[1]) for p in pairs]
         npool = max(2, min(12, int(1.5 * min(min(sizes), 8)) + 1))
         descrs = [f"d{i}" for i in range(npool)]
